@@ -25,9 +25,15 @@ def closures_projecting(F, ctx, t):
     return out
 
 
+NODE_KINDS = {"const", "place", "call", "bin", "un", "discr", "agg", "ovf", "opaque", "phi",
+              "counter", "len"}
+
+
 def walk(t):
-    if isinstance(t, tuple):
-        yield t
+    """all tree nodes (tuples whose head is a node kind), depth first"""
+    if isinstance(t, tuple) and t:
+        if isinstance(t[0], str) and t[0] in NODE_KINDS:
+            yield t
         for x in t:
             if isinstance(x, tuple):
                 yield from walk(x)
